@@ -6,12 +6,14 @@ import GeoVerif.Driver.Grid
 import GeoVerif.Driver.Survey
 import GeoVerif.Driver.Codec
 import GeoVerif.Driver.Ws
+import GeoVerif.Driver.Life
 open Lean GeoVerif.Driver
 
 structure DSt where
   concat : ConcatD.St := []
   geom : GeomD.St := GeomD.init
   ws : WsD.St := WsD.init
+  life : LifeD.St := LifeD.init0
 
 def stepLine (st : DSt) (line : String) : DSt × String :=
   match Json.parse line with
@@ -26,6 +28,7 @@ def stepLine (st : DSt) (line : String) : DSt × String :=
     | "survey" => (st, (SurveyD.handle j).compress)
     | "codec" => (st, (CodecD.handle j).compress)
     | "ws" => let (s, o) := WsD.handle st.ws j; ({ st with ws := s }, o.compress)
+    | "life" => let (s, o) := LifeD.handle st.life j; ({ st with life := s }, o.compress)
     | _ => (st, "\"bad-model\"")
 
 partial def loop (h : IO.FS.Stream) (out : IO.FS.Stream) (st : DSt) : IO Unit := do
